@@ -37,6 +37,16 @@ def _region_fn(expr):
     return region
 
 
+def regions_for(prop, name):
+    """region expressions (strings) of the open findings that apply to obligation `name` (used by smt obligations,
+    which conjoin NOT(region) to their assumptions themselves)"""
+    out = []
+    for f in open_for(prop):
+        if f.get("region") and re.compile(f["obligations"]).fullmatch(name):
+            out.append((f["id"], f["region"]))
+    return out
+
+
 def apply_exclusions(prop, obls):
     """obls: dict name -> Obl; wraps pre of matching obligations in place"""
     for f in open_for(prop):
@@ -45,7 +55,9 @@ def apply_exclusions(prop, obls):
         rx = re.compile(f["obligations"])
         reg = _region_fn(f["region"])
         for name, o in obls.items():
-            if rx.fullmatch(name):
+            if rx.fullmatch(name) and o.kind == "smt":
+                o.excluded = getattr(o, "excluded", []) + [f["id"]]
+            elif rx.fullmatch(name):
                 o.pre = _wrap(o.pre, reg)
                 o.excluded = getattr(o, "excluded", []) + [f["id"]]
 
